@@ -288,6 +288,15 @@ class Exec(object):
         either is a solver disagreement (checker error); anything else than `unsat` is inconclusive."""
         import subprocess, tempfile
         st = self.recheck_stats
+        t_in = time.time()
+        try:
+            return self._recheck(name, negated_goal, st)
+        finally:
+            # time spent in the second solvers does not count against the contract's exploration budget
+            self.t_start += time.time() - t_in
+
+    def _recheck(self, name, negated_goal, st):
+        import subprocess, tempfile
         limit = int(os.environ.get('PYVC_RECHECK_MAX', '2000'))
         if st['queries'] >= limit:
             st['skipped'] += 1
@@ -303,11 +312,11 @@ class Exec(object):
             f.write(text)
             path = f.name
         try:
-            for tool, cmd in (('z3-4.8.12', ['/usr/bin/z3', '-smt2', '-T:20', path]),
-                              ('cvc5-1.0', ['/usr/bin/cvc5', '--tlimit=20000', path])):
+            for tool, cmd in (('z3-4.8.12', ['/usr/bin/z3', '-smt2', '-T:10', path]),
+                              ('cvc5-1.0', ['/usr/bin/cvc5', '--tlimit=10000', path])):
                 t0 = time.time()
                 try:
-                    out = subprocess.run(cmd, capture_output=True, text=True, timeout=40).stdout.strip()
+                    out = subprocess.run(cmd, capture_output=True, text=True, timeout=20).stdout.strip()
                 except Exception:
                     out = 'timeout'
                 first = out.split('\n')[0].strip() if out else ''
